@@ -90,7 +90,7 @@ def plan_options(rng, spec):
     if rng.chance(p * 0.7):
         o['make_variables'] = rng.pick(VAR_FORMATS)
     if rng.chance(0.12):
-        o['encoding'] = rng.pick(['utf-16', 'utf-8-sig', 'utf-32'])
+        o['encoding'] = rng.pick(['utf-16', 'utf-8-sig', 'utf-32', 'latin-1', 'cp1252'])
     if rng.chance(0.1):
         o['indent_arg'] = rng.pick(['no', 'None', 'FALSE', '-1', '0', '2'])
         o['indent'] = {'no': None, 'None': None, 'FALSE': None, '-1': -1, '0': 0, '2': 2}[o['indent_arg']]
@@ -208,7 +208,7 @@ def run_tool(spec, opts, stdin, texts, trace, k, res, tag):
     argv = gmodels.cli_args(spec, '/sim/model.json') + cli_pipeline.cli_args(opts)
     files, plans = {}, {}
     if spec['kind'] == 'custom':
-        files['/sim/model.json'] = json.dumps(spec['spec']).encode('utf-8')
+        files['/sim/model.json'] = json.dumps(spec['spec'], ensure_ascii=False).encode('utf-8')
     stdin_bytes = b''
     if stdin:
         stdin_bytes = texts[0].encode('utf-8')
@@ -218,6 +218,11 @@ def run_tool(spec, opts, stdin, texts, trace, k, res, tag):
             res.hit('probe.encoding_option')
     else:
         enc = opts.get('encoding') or 'utf-8'
+        try:
+            for t in texts:
+                t.encode(enc)
+        except UnicodeEncodeError:
+            enc = 'utf-8'          # a single-byte code page cannot hold this text: the files are UTF-8 then
         if opts.get('encoding'):
             argv += ['--encoding', enc]
             res.hit('probe.encoding_option')
@@ -527,8 +532,8 @@ def subprocess_crosscheck(spec, argv, texts, stdin, r, res):
     try:
         real = [os.path.join(d, a[5:]) if a.startswith('/sim/') else a for a in argv]
         if spec['kind'] == 'custom':
-            with open(os.path.join(d, 'model.json'), 'w') as fh:
-                json.dump(spec['spec'], fh)
+            with open(os.path.join(d, 'model.json'), 'w', encoding='utf-8') as fh:
+                json.dump(spec['spec'], fh, ensure_ascii=False)
         if not stdin:
             for i, t in enumerate(texts):
                 with open(os.path.join(d, f'in{i}.penman'), 'wb') as fh:
